@@ -6,7 +6,7 @@ import random, json, sys, os, glob, ast, re
 from ..harness import coq, impl, pygen
 
 pid = 'C16'
-gen_modules = ['tr_lintdriver', 'tr_rules', 'tr_rest_lintcontract', 'tr_rest_lintrules', 'tr_rest_lintglue', 'tr_rest_linttables', 'tr_rest_climain', 'tr_rest_lintmisc', 'tr_rest_stubfile']
+gen_modules = ['tr_lintdriver', 'tr_rules', 'tr_rest_lintcontract', 'tr_rest_lintrules', 'tr_rest_lintglue', 'tr_rest_linttables', 'tr_rest_climain', 'tr_rest_lintmisc', 'tr_rest_stubfile', 'tr_lint', 'tr_lintexec']
 model_targets = ['Sem/LintDriver.v']
 hand_modelled = ['coq/Sem/LintDriver.v: Checker.get_errors (de-duplication, noqa filter), Extractor._ensure_node_info, LintCommand.__call__ (hand-written; source pinned by '
                  'tools/py2coq/lintdriver_pins.json); the noqa regex and the rules themselves are oracles of the driver model (their findings are its input)',
@@ -24,6 +24,7 @@ SPRINKLE = ['@deal.raises(ValueError)', '@deal.has()', '@deal.safe', '@deal.pure
             '@deal.pre(lambda _: _.x > 0)', '@deal.post(lambda r: r.startswith("a"))', '@deal.example(lambda: None)', '@deal.inherit']
 
 ZOO = [
+    'import deal\n\n@deal.pre(lambda x, y=0: x > 0)\ndef helper(x, y=0):\n    return x\n\n@deal.pure\ndef f():\n    return helper(**{"x": 1}, y=2) + helper(*[1], **{"y": 3}) + helper(1, **{})\n',
     'import deal\n\n@deal.example()\ndef f():\n    return 1\n',
     'import deal\n\n@deal.ensure()\ndef f():\n    return 1\n',
     'import deal\n\n@deal.ensure(validator=lambda x, result: True)\ndef f(x):\n    return 1\n',
@@ -195,10 +196,13 @@ def run(ctx, fr, model_available=True, files=None):
 
 
 def search(ctx, fr, model_available=True):
-    class C2: tier = 'thorough'; seed = ctx.seed + 100
-    fr2 = type(fr)()
-    run(C2, fr2, model_available=False)
-    fr.violations += fr2.violations; fr.evaluations += fr2.evaluations
+    # two further quick-sized corpora (other files of the repository / standard library, other generated modules)
+    for k in (1, 2):
+        class C2: tier = 'quick'; seed = ctx.seed + 100 * k
+        fr2 = type(fr)()
+        run(C2, fr2, model_available=False)
+        fr.violations += fr2.violations; fr.evaluations += fr2.evaluations
+        if fr2.violations: return
 
 
 def classify(v, findings):
